@@ -145,8 +145,20 @@ func (c *Ctx) codecRun() map[string]*simpleVerdict {
 							}
 							continue
 						}
-						// the encoded form in a stream is exactly one token (for the quote characters the tokenizer is configured with)
-						if th == nil || (q != '"' && !(st.tokenizer == "expression" && q == '\'')) {
+						// the encoded form in a stream is exactly one token (the CSV tokenizer is configured with the quote
+						// character through SetQuoteSymbols; the expression tokenizer knows ' and ")
+						if th == nil {
+							continue
+						}
+						if st.tokenizer == "csv" {
+							if q == '😀' {
+								continue // outside the range the tokenizer is configured for (up to U+FFFE)
+							}
+							if _, out := th.call("SetQuoteSymbols", mSlice{[]mv{int64(q)}}); out.kind != "ok" {
+								v.undec = where + ": SetQuoteSymbols: " + out.why
+								continue
+							}
+						} else if q != '"' && q != '\'' {
 							continue
 						}
 						r := th.tokenize(es)
